@@ -15,3 +15,8 @@ open Femio.C04
 #print axioms C04_roundtrip_chars
 #print axioms C04_roundtrip_chars_printed
 #print axioms C04_own_order_chars
+#print axioms C04_history_roundtrip
+#print axioms C04_write_leaves_object
+#print axioms C04_second_write_same_file
+#print axioms C04_file_of_public_state_only
+#print axioms C04_stale_frame_counterexample
